@@ -151,7 +151,20 @@ def generate(repo):
         else:
           raise ConfigParserException("Could not parse data from '{}', neither 'xy' or 'x' and 'y' entries found.".format(section_name))
 
+        for values in data:
+          for v in values:
+            if not (float("-inf") < v < float("inf")):
+              raise ConfigParserException("The data of '{}' must be finite numbers, found: {}".format(section_name, v))
+
         return data
+    ''')
+    assert_body(repo, C, '_TableFormSection._parse_name', '''
+        m = cls._section_name_regex.match(section_name)
+        name = m.groups()[0]
+        name = name.strip()
+        if not name:
+          raise ConfigParserException("A table form needs a name: [{}:NAME]. Section found: [{}]".format(cls._section_name_prefix, section_name))
+        return name
     ''')
     assert_body(repo, C, '_TableFormSection._parse_section', '''
         name = self._parse_name(section_name)
